@@ -289,7 +289,8 @@ func refContainer(kind string, b, dict []byte, multistream bool) Oracle {
 				o.RefVerdict = "uxeof"
 				return o
 			}
-			if dict == nil || binary.BigEndian.Uint32(b[2:6]) != adler32.Checksum(dict) {
+			// (no dictionary and an empty dictionary are the same thing: Adler-32 of nothing is 1)
+			if binary.BigEndian.Uint32(b[2:6]) != adler32.Checksum(dict) {
 				o.RefVerdict = "corrupt"
 				return o
 			}
